@@ -345,12 +345,45 @@ _TYPEFLAG = re.compile(r'^(.*\.type)\.(is_\w+|signed)$')
 _FEAS_MEMO = {}
 
 
+def type_table2(ix):
+    """PyrexTypes class -> (class-level flags, has `signed`, flags some class of its MRO assigns per instance (`self.is_string = 1` in CPointerBaseType.__init__): either value)"""
+    base = P.type_table(ix)
+    m = ix.mod('PyrexTypes')
+    out = {}
+    for name, (flags, has_signed) in base.items():
+        free = set()
+        for k in ix.mro(m.classes[name]):
+            free |= {a for a in k.self_attrs if a.startswith('is_')}
+        out[name] = (flags, has_signed, free)
+    return out
+
+
+def _flags_feasible(assume, ttable):
+    """are the assumed type flags of every `<path>.type` satisfiable by one PyrexTypes class?"""
+    groups = {}
+    for k, v in assume.items():
+        m = _TYPEFLAG.match(k)
+        if m:
+            groups.setdefault(m.group(1), {})[m.group(2)] = v
+    for tp, fl in groups.items():
+        ok = False
+        for name, (flags, has_signed, free) in ttable.items():
+            if 'signed' in fl and not has_signed:
+                continue
+            if all(f in free or flags.get(f, False) == v for f, v in fl.items() if f != 'signed'):
+                ok = True
+                break
+        if not ok:
+            return False
+    return True
+
+
 def _feasible(d, ttable):
     key = frozenset((k, v) for k, v in d.items() if _TYPEFLAG.match(k))
     if key not in _FEAS_MEMO:
         if len(_FEAS_MEMO) > 200000:
             _FEAS_MEMO.clear()
-        _FEAS_MEMO[key] = P.flags_feasible(dict(key), ttable)
+        _FEAS_MEMO[key] = _flags_feasible(dict(key), ttable)
     return _FEAS_MEMO[key]
 
 
@@ -490,7 +523,7 @@ def rule_repaste(ctx, floor=3, modules=('ExprNodes',)):
     r = Rule('C20-REPASTE', 'an operand whose C result the code generator of an expression node class (generate_result_code / generate_assignment_code / generate_deletion_code '
              'and their helpers) pastes more than once into the code of one path has been made simple by the class\'s analysis method or constructor under every valuation '
              'of the shared flags that admits the path', floor)
-    ttable = P.type_table(ix)
+    ttable = type_table2(ix)
     nclasses = 0
     for ms in modules:
         m = ix.mod(ms)
